@@ -41,8 +41,10 @@ func checkC06(p *Prog, r *Report) {
 	r.rule("C06.I1", "in every function that calls a verify primitive, each check-passed edge exists (AEAD: err == nil of Open; CFB-style: CRC comparison on the decrypted packet) — at least one per cipher arm", 4)
 	r.rule("C06.I2", "each verify primitive is dominated by the minimum-length guard (len >= cryptHeaderSize resp. >= NonceSize()+Overhead())", 4)
 	r.rule("C06.I3", "every node reachable from the entry without crossing a check-passed edge (or the no-cipher arm) has a transitive effect set within {Snmp.InCsumErrors, blockCrypt.decbuf/decMu, locals, the datagram buffer}; no channel operation, no goroutine", 20)
-	r.rule("C06.I4", "CRC coverage agrees: the reader compares bytes [nonceSize, nonceSize+crcSize) with the checksum of [cryptHeaderSize:] of the decrypted packet; the writer stores ChecksumIEEE(buf[cryptHeaderSize:]) at buf[nonceSize:] before every BlockCrypt.Encrypt (data and parity)", 4)
+	r.rule("C06.I4", "CRC coverage agrees: the reader compares bytes [nonceSize, nonceSize+crcSize) with the checksum of [cryptHeaderSize:] of the decrypted packet; the writer stores ChecksumIEEE(buf[cryptHeaderSize:]) at buf[nonceSize:] before every BlockCrypt.Encrypt (data and parity)", 3)
+	r.rule("C06.I6", "a receive loop ends only on the socket's own error: the error variable tested is assigned by the read call alone, and every return inside the loop is dominated by that test — no property of a datagram (length 0, content) can end the loop", 2)
 	r.rule("C06.I5", "the verifying functions are siblings: each has the no-cipher arm, the AEAD gate and the CRC gate", 2)
+	checkReceiveLoopExits(p, r)
 
 	open := p.Method("aeadCrypt", "Open")
 	blockCryptT, _ := p.lookup("BlockCrypt").(*types.TypeName)
@@ -136,6 +138,7 @@ func checkC06(p *Prog, r *Report) {
 						// I4 reader: Decrypt covers the whole packet (offset 0), x sits at nonceSize, coverage from cryptHeaderSize
 						di, ok1 := so.OffsetOf(ds.Call.Args[0], ds.Call)
 						xi, ok2 := p.offsetOfTermVar(so, x, cond)
+						xi.Off += crcReadRel
 						switch {
 						case !ok1 || !ok2:
 							r.bad("C06.I4", fi.Name, p.Pos(cond), "reader CRC range", "cannot compose the slice offsets of the compared packet (re-slicing is not by constants)", "")
@@ -261,7 +264,11 @@ func checkC06(p *Prog, r *Report) {
 	for _, s := range encSites {
 		fi := rootFuncInfo(s.Fn)
 		if fi.Obj != nil && (recvTypeName(fi.Obj) != "UDPSession") {
-			continue
+			// a helper of the output path (e.g. an extracted seal function) counts as well
+			pp := p.FuncByName("(*UDPSession).postProcess")
+			if pp == nil || !p.TransEffects(pp).Funcs[fi] {
+				continue
+			}
 		}
 		nWriter++
 		construct := "Encrypt(" + exprString(s.Call.Args[0]) + ",…)"
@@ -416,7 +423,11 @@ func (p *Prog) onlyAssignedFromCallTo(fi *FuncInfo, v *types.Var, f *types.Func)
 }
 
 // matchCRCCompare: a is ChecksumIEEE(slice(X, c)) == LittleEndian.Uint32(X).
+// crcReadRel: offset (relative to x) at which the last matched comparison reads the stored CRC.
+var crcReadRel int64
+
 func (p *Prog) matchCRCCompare(a *Term) (x *Term, cover int64, ok bool) {
+	crcReadRel = 0
 	if a.Op != "==" || len(a.Args) != 2 {
 		return nil, 0, false
 	}
@@ -438,10 +449,17 @@ func (p *Prog) matchCRCCompare(a *Term) (x *Term, cover int64, ok bool) {
 		if cv.Op != "slice" || cv.Args[1] == nil || !cv.Args[1].IsConst() || cv.Args[2] != nil {
 			continue
 		}
+		// the stored value may be read at a constant offset of the same packet: Uint32(x[k:])
+		readRel := int64(0)
+		if rx.Op == "slice" && rx.Args[1] != nil && rx.Args[1].IsConst() && rx.Args[2] == nil {
+			readRel = rx.Args[1].Int
+			rx = rx.Args[0]
+		}
 		if cv.Args[0].Key() != rx.Key() {
 			continue
 		}
-		return rx, cv.Args[1].Int, true
+		crcReadRel = readRel
+		return rx, cv.Args[1].Int - readRel, true
 	}
 	return nil, 0, false
 }
@@ -528,4 +546,126 @@ func (p *Prog) disallowedPreGate(n ast.Node) []string {
 	}
 	sort.Strings(out)
 	return out
+}
+
+// checkReceiveLoopExits: C06.I6.
+func checkReceiveLoopExits(p *Prog, r *Report) {
+	n := 0
+	for _, name := range []string{"(*UDPSession).defaultReadLoop", "(*UDPSession).readLoop", "(*Listener).defaultMonitor", "(*Listener).monitor"} {
+		fi := p.FuncByName(name)
+		if fi == nil {
+			continue
+		}
+		c := p.CFG(fi)
+		var readAs *ast.AssignStmt
+		var ev *types.Var
+		ast.Inspect(fi.Body, func(x ast.Node) bool {
+			as, ok := x.(*ast.AssignStmt)
+			if !ok || len(as.Rhs) != 1 {
+				return true
+			}
+			call, ok := ast.Unparen(as.Rhs[0]).(*ast.CallExpr)
+			if !ok {
+				return true
+			}
+			sel, ok := ast.Unparen(call.Fun).(*ast.SelectorExpr)
+			if !ok || (sel.Sel.Name != "ReadFrom" && sel.Sel.Name != "ReadBatch") {
+				return true
+			}
+			if id, ok := as.Lhs[len(as.Lhs)-1].(*ast.Ident); ok {
+				if v, ok := p.Info.Defs[id].(*types.Var); ok {
+					ev, readAs = v, as
+				} else if v, ok := p.Info.Uses[id].(*types.Var); ok {
+					ev, readAs = v, as
+				}
+			}
+			return true
+		})
+		if ev == nil {
+			continue
+		}
+		n++
+		loop := enclosingLoop(p, readAs)
+		ok := true
+		why := ""
+		// the error variable is assigned by the read alone
+		nAs := 0
+		ast.Inspect(fi.Body, func(x ast.Node) bool {
+			if as, isA := x.(*ast.AssignStmt); isA {
+				for _, l := range as.Lhs {
+					if id, isId := l.(*ast.Ident); isId && (p.Info.Uses[id] == ev || p.Info.Defs[id] == ev) {
+						nAs++
+					}
+				}
+			}
+			return true
+		})
+		if nAs != 1 {
+			ok, why = false, fmt.Sprintf("the error variable %s is assigned at %d places, not by the read call alone: a property of the datagram (such as a length of 0) can be turned into a fatal error", ev.Name(), nAs)
+		}
+		// every return inside the loop is under err != nil
+		if loop != nil {
+			ast.Inspect(loop, func(x ast.Node) bool {
+				if _, isLit := x.(*ast.FuncLit); isLit {
+					return false
+				}
+				rs, isR := x.(*ast.ReturnStmt)
+				if !isR {
+					return true
+				}
+				pt, _ := c.PointOf(rs)
+				under := false
+				for _, ct := range c.DominatingConds(pt) {
+					for _, a := range Conjuncts(ct) {
+						if a.Key() == ne(tVar(ev), mk("nil")).Key() {
+							under = true
+						}
+					}
+				}
+				if !under {
+					// a return that does not depend on anything read from the socket (e.g. the session was closed) is not caused by a datagram
+					tainted := map[*types.Var]bool{}
+					for _, l := range readAs.Lhs {
+						if id, isId := l.(*ast.Ident); isId {
+							if v, okv := p.Info.Defs[id].(*types.Var); okv {
+								tainted[v] = true
+							} else if v, okv := p.Info.Uses[id].(*types.Var); okv {
+								tainted[v] = true
+							}
+						}
+					}
+					if call, isC := ast.Unparen(readAs.Rhs[0]).(*ast.CallExpr); isC {
+						for _, a := range call.Args {
+							if id, isId := ast.Unparen(a).(*ast.Ident); isId {
+								if v, okv := p.Info.Uses[id].(*types.Var); okv {
+									tainted[v] = true
+								}
+							}
+						}
+					}
+					dep := false
+					for _, ca := range c.DominatingCondsAt(pt) {
+						if !nodeWithin(p, lastNode(ca.B), loop) || ca.T.Key() == eq(tVar(ev), mk("nil")).Key() {
+							continue
+						}
+						ca.T.Walk(func(t *Term) {
+							if t.Op == "var" {
+								if v, okv := t.Obj.(*types.Var); okv && tainted[v] {
+									dep = true
+								}
+							}
+						})
+					}
+					if dep {
+						ok, why = false, "the loop returns at "+p.Pos(rs)+" depending on what was read, for a reason other than the read's error: one datagram can end the receive loop (the session or the whole listener goes deaf)"
+					}
+				}
+				return true
+			})
+		}
+		r.check(ok, "C06.I6", fi.Name, p.Pos(readAs), "exits of the receive loop", "only on the read's own error", why)
+	}
+	if n == 0 {
+		r.bad("C06.I6", "receive loops", "-", "exits of the receive loop", "no receive loop found", "")
+	}
 }
